@@ -199,6 +199,29 @@ def o_first_conformation_wiped(ctx):
         ctx.claim('site-with-defining-atom-reported', rep.count(lab) == 1, detail='%s: %r reported %d times' % (case, lab, rep.count(lab)))
 
 
+def o_heavy_atoms_of_a_residue_removed(ctx):
+    """with the hydrogens supplied (--keep-protons) a truncation can leave a residue with hydrogens only: the run
+    completes (the pre-check only warns) and the other residues' sites are reported"""
+    import propka.output as O
+    from .c04 import with_hydrogens_text
+    txt = with_hydrogens_text('pep8')
+    nums = sorted({int(l[22:26]) for l in txt.split('\n') if l.startswith('ATOM')})
+    victim = ctx.choice('residue_left_with_hydrogens_only', nums)
+    text = '\n'.join(l for l in txt.split('\n') if l and not (l.startswith('ATOM') and int(l[22:26]) == victim and l[76:78].strip() != 'H')) + '\n'
+    try:
+        mol = M.run(text, args=['--keep-protons'])
+        O.get_determinant_section(mol, 'AVR', mol.version.parameters) + O.get_summary_section(mol, 'AVR', mol.version.parameters)
+    except Exception as e:  # noqa
+        import traceback
+        ctx.claim('no-unhandled-error', False, detail='residue %d: %s: %s\n%s' % (victim, type(e).__name__, e, traceback.format_exc()[-600:]))
+        return
+    ctx.claim('no-unhandled-error', True)
+    rep = M.reported(mol)
+    for lab, n in (('ASP  29 A', 29), ('ASP  30 A', 30)):
+        if n != victim:
+            ctx.claim('site-with-defining-atom-reported', rep.count(lab) == 1, detail='residue %d emptied: %r reported %d times' % (victim, lab, rep.count(lab)))
+
+
 def o_rejections(ctx):
     """no atom records / unknown file type -> ValueError (nothing else)"""
     import propka.run as R
@@ -261,6 +284,9 @@ def obligations(tier):
     obs.append(Obligation('O2-first-conformation-wiped', o_first_conformation_wiped, code=['propka/input.py:read_pdb', 'propka/molecular_container.py:MolecularContainer.average_of_conformations', 'propka/run.py:single'],
                           bounds='the 8-residue peptide as: MODEL 2 after an empty MODEL 1; after a MODEL 1 holding one hydrogen; MODEL 1 before an empty MODEL 2; alternate locations B and C only', kind='table-check',
                           claim_doc='no exception; the side-chain sites are reported', stop_on_violation=False))
+    obs.append(Obligation('O2-residue-left-with-hydrogens-only[keep-protons]', o_heavy_atoms_of_a_residue_removed, code=['propka/lib.py:protein_precheck', 'propka/input.py:read_molecule_file', 'propka/run.py:single'],
+                          bounds='the 8-residue peptide with its hydrogens supplied, --keep-protons, every heavy atom of one residue removed (8 structures)', kind='table-check',
+                          claim_doc='no exception; the other side-chain sites are reported', stop_on_violation=False))
     obs.append(Obligation('O3-rejections', o_rejections, code=['propka/input.py:read_molecule_file', 'propka/input.py:read_pdb'],
                           bounds='6 inputs: empty, remarks only, only ignorable water, only hydrogens, wrong / missing extension', kind='table-check',
                           claim_doc='ValueError and nothing else', stop_on_violation=False))
